@@ -366,7 +366,8 @@ static void do_dig(vf_case *c) {
 		if (DG[di].add) { put(EA, T, &a); junk(EC, N); fp_st *o = al ? EA : EC; VF_TRY(th, DG[di].add(o, EA, d)); relt_add(T, &r, &a, &dd); snprintf(w, sizeof w, "fp%d_add_dig%s", N, al ? "[alias]" : ""); if (th) vf_fail(NULL, "%s raised", w); else expect(D, w, o, &r, NULL); }
 		if (DG[di].sub) { put(EA, T, &a); junk(EC, N); fp_st *o = al ? EA : EC; VF_TRY(th, DG[di].sub(o, EA, d)); relt_sub(T, &r, &a, &dd); snprintf(w, sizeof w, "fp%d_sub_dig%s", N, al ? "[alias]" : ""); if (th) vf_fail(NULL, "%s raised", w); else expect(D, w, o, &r, NULL); }
 		if (DG[di].mul) { put(EA, T, &a); junk(EC, N); fp_st *o = al ? EA : EC; VF_TRY(th, DG[di].mul(o, EA, d)); relt_mul(T, &r, &a, &dd); snprintf(w, sizeof w, "fp%d_mul_dig%s", N, al ? "[alias]" : ""); if (th) vf_fail(NULL, "%s raised", w); else expect(D, w, o, &r, NULL); }
-		if (DG[di].exp && (N <= 12 || d < 70000)) { put(EA, T, &a); junk(EC, N); fp_st *o = al ? EA : EC; VF_TRY(th, DG[di].exp(o, EA, d)); relt_pow(T, &r, &a, z); snprintf(w, sizeof w, "fp%d_exp_dig%s", N, al ? "[alias]" : ""); if (th) vf_fail(frb_kf(D), "%s raised", w); else expect(D, w, o, &r, frb_kf(D)); /* exp_dig asks fpN_test_cyc, which is built from the Frobenius (L31 at foreign primes) */ } }
+		/* fpN_exp_dig (N >= 8) asks fpN_test_cyc, i.e. the Frobenius: at the tiny primes of the 8-bit world that is outside the towers' families (excluded there like the other Frobenius-based operations, section 0.3; fp54_exp_dig does not even terminate at p = 331) */
+		if (DG[di].exp && (!tiny || N == 2) && (N <= 12 || d < 70000)) { put(EA, T, &a); junk(EC, N); fp_st *o = al ? EA : EC; VF_TRY(th, DG[di].exp(o, EA, d)); relt_pow(T, &r, &a, z); snprintf(w, sizeof w, "fp%d_exp_dig%s", N, al ? "[alias]" : ""); if (th) vf_fail(frb_kf(D), "%s raised", w); else expect(D, w, o, &r, frb_kf(D)); /* exp_dig asks fpN_test_cyc, which is built from the Frobenius (L31 at foreign primes) */ } }
 	/* set_dig / cmp_dig: the digit as an element of the tower; equality with a digit means coefficient 0 equals it and all others vanish */
 	{ junk(EC, N); VF_TRY(th, DG[di].set(EC, d)); snprintf(w, sizeof w, "fp%d_set_dig", N); if (th) vf_fail(NULL, "%s raised", w); else expect(D, w, EC, &dd, NULL);
 		int e = 9; put(EA, T, &a); VF_TRY(th, e = DG[di].cmp(EA, d)); transitions++; if (!th && ((e == RLC_EQ) != relt_eq(T, &a, &dd))) vf_fail(NULL, "fp%d_cmp_dig: says %s for an element that %s the digit", N, e == RLC_EQ ? "EQ" : "NE", relt_eq(T, &a, &dd) ? "equals" : "differs from");
